@@ -38,27 +38,32 @@ package curve25519
 //@ spec isone(x) = x[0] == 1 && x[1] == 0 && x[2] == 0 && x[3] == 0 && x[4] == 0
 
 //@ func (*Bignum25519).Reset(out)
+//@   ct
 //@   modifies *out
 //@   ensures forall(i, 0, 5, out[i] == 0)
 
 //@ func Copy(out, in)
+//@   ct
 //@   alias out==in
 //@   modifies *out
 //@   ensures *out == old(*in)
 
 //@ func Add(out, a, b)
+//@   ct
 //@   alias out==a | out==b | a==b | out==a==b
 //@   requires mag(*a, HALF) && mag(*b, HALF)
 //@   modifies *out
 //@   ensures forall(i, 0, 5, out[i] == old(a[i]) + old(b[i]))
 
 //@ func AddAfterBasic(out, a, b)
+//@   ct
 //@   alias out==a | out==b | a==b | out==a==b
 //@   requires mag(*a, HALF) && mag(*b, HALF)
 //@   modifies *out
 //@   ensures forall(i, 0, 5, out[i] == old(a[i]) + old(b[i]))
 
 //@ func AddReduce(out, a, b)
+//@   ct
 //@   alias out==a | out==b | a==b | out==a==b
 //@   requires mag(*a, B2) && mag(*b, B2)
 //@   modifies *out
@@ -66,6 +71,7 @@ package curve25519
 //@   ensures cong(fval(*out), fval(old(*a)) + fval(old(*b)), P)
 
 //@ func Sub(out, a, b)
+//@   ct
 //@   alias out==a | out==b | a==b | out==a==b
 //@   requires mag(*a, HALF) && mag(*b, TWOP)
 //@   modifies *out
@@ -73,6 +79,7 @@ package curve25519
 //@   ensures forall(i, 1, 5, out[i] == old(a[i]) + 0x0ffffffffffffe - old(b[i]))
 
 //@ func SubAfterBasic(out, a, b)
+//@   ct
 //@   alias out==a | out==b | a==b | out==a==b
 //@   requires mag(*a, HALF) && mag(*b, FOURP)
 //@   modifies *out
@@ -80,6 +87,7 @@ package curve25519
 //@   ensures forall(i, 1, 5, out[i] == old(a[i]) + 0x1ffffffffffffc - old(b[i]))
 
 //@ func SubReduce(out, a, b)
+//@   ct
 //@   alias out==a | out==b | a==b | out==a==b
 //@   requires mag(*a, B2) && mag(*b, FOURP)
 //@   modifies *out
@@ -87,6 +95,7 @@ package curve25519
 //@   ensures cong(fval(*out), fval(old(*a)) - fval(old(*b)), P)
 
 //@ func Neg(out, a)
+//@   ct
 //@   alias out==a
 //@   requires mag(*a, TWOP)
 //@   modifies *out
@@ -94,6 +103,7 @@ package curve25519
 //@   ensures cong(fval(*out), 0 - fval(old(*a)), P)
 
 //@ func Mul(out, in2, in)
+//@   ct
 //@   alias out==in2 | out==in | in2==in | out==in2==in
 //@   requires mag(*in2, MULIN) && mag(*in, MULIN)
 //@   modifies *out
@@ -101,6 +111,7 @@ package curve25519
 //@   ensures cong(fval(*out), fval(old(*in2)) * fval(old(*in)), P)
 
 //@ func Square(out, in)
+//@   ct
 //@   alias out==in
 //@   requires mag(*in, MULIN)
 //@   modifies *out
@@ -108,6 +119,7 @@ package curve25519
 //@   ensures cong(fval(*out), fval(old(*in)) * fval(old(*in)), P)
 
 //@ func SquareTimes(out, in, count)
+//@   ct public count
 //@   alias out==in
 //@   requires mag(*in, MULIN) && count >= 0
 //@   modifies *out
@@ -121,12 +133,14 @@ package curve25519
 //@   ensures cong(fval(*out), sqn(fval(old(*in)), count, P), P)
 
 //@ func Expand(out, in)
+//@   ct
 //@   requires len(in) >= 32
 //@   modifies *out
 //@   ensures mag(*out, CANON)
 //@   ensures fval(*out) == le(in[0:32]) % (1<<255)
 
 //@ func Contract(out, input)
+//@   ct
 //@   requires len(out) >= 32 && mag(*input, B2)
 //@   modifies out[0:32]
 //@   cut call#1 havoc t : t[0] < 1<<51 + 1<<10 && forall(i, 1, 5, t[i] < 1<<51) && cong(fval(t), fval(old(*input)), P)
@@ -136,6 +150,7 @@ package curve25519
 //@   ensures le(out[0:32]) == fval(old(*input)) % P
 
 //@ func SwapConditional(a, b, iswap)
+//@   ct
 //@   requires iswap == 0 || iswap == 1
 //@   modifies *a, *b
 //@   ensures iswap == 1 ==> (*a == old(*b) && *b == old(*a))
@@ -167,21 +182,25 @@ package curve25519
 //@ class B2    = [1<<27 + 1<<14, 1<<26 + 1<<14, 1<<27 + 1<<14, 1<<26 + 1<<14, 3<<26 + 1<<14, 3<<25 + 1<<14, 3<<26 + 1<<14, 3<<25 + 1<<14, 3<<26 + 1<<14, 3<<25 + 1<<14]
 
 //@ func (*Bignum25519).Reset(out)
+//@   ct
 //@   modifies *out
 //@   ensures forall(i, 0, 10, out[i] == 0)
 
 //@ func Copy(out, in)
+//@   ct
 //@   alias out==in
 //@   modifies *out
 //@   ensures *out == old(*in)
 
 //@ func Add(out, a, b)
+//@   ct
 //@   alias out==a | out==b | a==b | out==a==b
 //@   requires mag(*a, HALF) && mag(*b, HALF)
 //@   modifies *out
 //@   ensures forall(i, 0, 10, out[i] == old(a[i]) + old(b[i]))
 
 //@ func AddAfterBasic(out, a, b)
+//@   ct
 //@   alias out==a | out==b | a==b | out==a==b
 //@   requires mag(*a, U1) && mag(*b, U1)
 //@   modifies *out
@@ -189,6 +208,7 @@ package curve25519
 //@   ensures cong(fval(*out), fval(old(*a)) + fval(old(*b)), P)
 
 //@ func AddReduce(out, a, b)
+//@   ct
 //@   alias out==a | out==b | a==b | out==a==b
 //@   requires mag(*a, U1) && mag(*b, U1)
 //@   modifies *out
@@ -196,6 +216,7 @@ package curve25519
 //@   ensures cong(fval(*out), fval(old(*a)) + fval(old(*b)), P)
 
 //@ func Sub(out, a, b)
+//@   ct
 //@   alias out==a | out==b | a==b | out==a==b
 //@   requires mag(*a, RED) && mag(*b, RED)
 //@   modifies *out
@@ -203,6 +224,7 @@ package curve25519
 //@   ensures cong(fval(*out), fval(old(*a)) - fval(old(*b)), P)
 
 //@ func SubAfterBasic(out, a, b)
+//@   ct
 //@   alias out==a | out==b | a==b | out==a==b
 //@   requires mag(*a, U1) && mag(*b, U1)
 //@   modifies *out
@@ -210,6 +232,7 @@ package curve25519
 //@   ensures cong(fval(*out), fval(old(*a)) - fval(old(*b)), P)
 
 //@ func SubReduce(out, a, b)
+//@   ct
 //@   alias out==a | out==b | a==b | out==a==b
 //@   requires mag(*a, U1) && mag(*b, U1)
 //@   modifies *out
@@ -217,6 +240,7 @@ package curve25519
 //@   ensures cong(fval(*out), fval(old(*a)) - fval(old(*b)), P)
 
 //@ func Neg(out, a)
+//@   ct
 //@   alias out==a
 //@   requires mag(*a, TWOP)
 //@   modifies *out
@@ -224,6 +248,7 @@ package curve25519
 //@   ensures cong(fval(*out), 0 - fval(old(*a)), P)
 
 //@ func Mul(out, a, b)
+//@   ct
 //@   alias out==a | out==b | a==b | out==a==b
 //@   cases mag(*a, U1) && mag(*b, ADD1) | mag(*a, U1) && mag(*b, SUB1) | mag(*a, ADD1) && mag(*b, U1) | mag(*a, SUB1) && mag(*b, U1)
 //@   modifies *out
@@ -231,6 +256,7 @@ package curve25519
 //@   ensures cong(fval(*out), fval(old(*a)) * fval(old(*b)), P)
 
 //@ func Square(out, in)
+//@   ct
 //@   alias out==in
 //@   cases mag(*in, ADD1) | mag(*in, SUB1)
 //@   modifies *out
@@ -238,6 +264,7 @@ package curve25519
 //@   ensures cong(fval(*out), fval(old(*in)) * fval(old(*in)), P)
 
 //@ func SquareTimes(out, in, count)
+//@   ct public count
 //@   alias out==in
 //@   cases mag(*in, ADD1) && count >= 0 | mag(*in, SUB1) && count >= 0
 //@   modifies *out
@@ -251,12 +278,14 @@ package curve25519
 //@   ensures cong(fval(*out), sqn(fval(old(*in)), count, P), P)
 
 //@ func Expand(out, in)
+//@   ct
 //@   requires len(in) >= 32
 //@   modifies *out
 //@   ensures mag(*out, CANON)
 //@   ensures fval(*out) == le(in[0:32]) % (1<<255)
 
 //@ func Contract(out, in)
+//@   ct
 //@   requires len(out) >= 32 && mag(*in, U1)
 //@   modifies out[0:32]
 //@   cut call#2 havoc f : f[0] < 1<<26 + 1<<10 && forall(i, 1, 10, f[i] <= ite(i % 2 == 0, 1<<26 - 1, 1<<25 - 1)) && cong(fval(f), fval(old(*in)), P)
@@ -266,6 +295,7 @@ package curve25519
 //@   ensures le(out[0:32]) == fval(old(*in)) % P
 
 //@ func SwapConditional(a, b, iswap)
+//@   ct
 //@   requires iswap == 0 || iswap == 1
 //@   modifies *a, *b
 //@   ensures iswap == 1 ==> (*a == old(*b) && *b == old(*a))
@@ -274,12 +304,14 @@ package curve25519
 //@ config any
 
 //@ func powTwo5two0Two250mtwo0(b)
+//@   ct
 //@   requires mag(*b, RED)
 //@   modifies *b
 //@   ensures mag(*b, RED)
 //@   ensures cong(fval(*b), pow(fval(old(*b)), (1<<250 - 1) / 31), P)
 
 //@ func Recip(out, z)
+//@   ct
 //@   alias out==z
 //@   cases mag(*z, ADD1) | mag(*z, SUB1)
 //@   modifies *out
@@ -287,6 +319,7 @@ package curve25519
 //@   ensures cong(fval(*out), pow(fval(old(*z)), P - 2), P)
 
 //@ func PowTwo252m3(two252m3, z)
+//@   ct
 //@   alias two252m3==z
 //@   cases mag(*z, ADD1) | mag(*z, SUB1)
 //@   modifies *two252m3
